@@ -99,8 +99,14 @@ def rule_rule_keyed(ctx, rep):
                 if isinstance(v, ast.Name) and v.id not in pp:
                     collect(v.id, seen)  # alias of another local list
                     continue
+                while isinstance(v, ast.Call) and isinstance(v.func, ast.Name) and v.func.id in ("list", "tuple") and len(v.args) == 1:
+                    v = v.args[0]
                 if isinstance(v, ast.ListComp) and len(v.generators) == 2 and isinstance(v.elt, ast.Name) and isinstance(v.generators[1].target, ast.Name) and v.generators[1].target.id == v.elt.id and not any(g.ifs for g in v.generators):
                     sources.append((n, lookup_ok(v.generators[1].iter, v)))
+                elif isinstance(v, ast.Call) and last_attr(v.func) == "from_iterable" and len(v.args) == 1 and isinstance(v.args[0], (ast.GeneratorExp, ast.ListComp)) \
+                        and len(v.args[0].generators) == 1 and not v.args[0].generators[0].ifs:
+                    # chain.from_iterable(<lookup> for rule in rules): the same flattening as the nested comprehension
+                    sources.append((n, lookup_ok(v.args[0].elt, v.args[0])))
                 else:
                     sources.append((n, False))
 
